@@ -109,7 +109,7 @@ F3c == { Cat(<<BRef(1), Grp(A)>>), Cat(<<Grp(Cat(<<A, BRef(2)>>)), Grp(B)>>),
          Cat(<<Alt(<<Grp(Dot), Rep(BRef(1), 1, 3, TRUE)>>), Cls(TRUE, <<IC(cs)>>)>>),
          Cat(<<Grp(Cat(<<Rep(A, 1, 2, FALSE), Opt(BRef(1))>>)), Chr(cc)>>) }
 F3 == With(F3a \cup F3b \cup F3c, NoFlags) \cup With(F3c, Flags(TRUE, FALSE, FALSE, FALSE, FALSE))
-F3Hay == [alpha |-> {ca, cb, cc}, maxlen |-> IF Thorough THEN 5 ELSE 3]
+F3Hay == [alpha |-> {ca, cb, cc}, maxlen |-> IF Thorough THEN 4 ELSE 3]
 
 (***************************************************************************)
 (* F4: look-arounds                                                        *)
